@@ -44,6 +44,7 @@ type c11Hist struct {
 }
 
 type c11Env struct {
+	mints int // mints so far (every 25th is preceded by a genesis round trip of x/basket)
 	r       *Rec
 	w       *World
 	ctx     sdk.Context
@@ -414,7 +415,20 @@ func (e *c11Env) checkCaps(b baskettypes.Basket, what string) {
 
 // ---------------------------------------------------------------- ops
 
+// reimport: the basket module's state goes through its own genesis export / import on the live store (a restart from an
+// exported genesis); the model is not told - baskets, reserves, surplus and the limits history must come back as they were
+func (e *c11Env) reimport() {
+	if f := e.w.ReimportModuleInPlace(e.ctx, baskettypes.ModuleName, baskettypes.ModuleName); f != nil {
+		e.r.Fail("C11/genesis/reimport-failed", fmt.Sprintf("basket InitGenesis of the exported state failed: %v", f), e.replay())
+	}
+	e.r.Mark("reimport of module basket")
+	e.r.Count("reimport:basket")
+}
+
 func (e *c11Env) doMint(a int, id uint64, dep []sdk.Coin) bool {
+	if e.mints++; e.mints%25 == 0 {
+		e.reimport()
+	}
 	before := e.snap(a)
 	msg := &baskettypes.MsgBasketTokenMint{Sender: e.w.addrs[a].String(), BasketId: id, Deposit: dep}
 	err := withCache(e.ctx, func(c sdk.Context) error { _, er := e.ms.BasketTokenMint(sdk.WrapSDKContext(c), msg); return er })
